@@ -336,6 +336,9 @@ func (e *Engine) guardOf(structT types.Type, field int) *GuardDecl {
 	}
 	fname := structT.Underlying().(*types.Struct).Field(field).Name()
 	for _, g := range e.contracts.Guards {
+		if g.Private {
+			continue
+		}
 		if g.Pkg == n.Obj().Pkg().Path() && g.Struct == n.Obj().Name() {
 			for _, f := range g.Fields {
 				if f == fname {
@@ -347,6 +350,25 @@ func (e *Engine) guardOf(structT types.Type, field int) *GuardDecl {
 	return nil
 }
 
+// privateField: declared written-after-construction but not guarded.
+func (e *Engine) privateField(structT types.Type, field int) bool {
+	n, ok := structT.(*types.Named)
+	if !ok || n.Obj().Pkg() == nil {
+		return false
+	}
+	fname := structT.Underlying().(*types.Struct).Field(field).Name()
+	for _, g := range e.contracts.Guards {
+		if g.Private && g.Pkg == n.Obj().Pkg().Path() && g.Struct == n.Obj().Name() {
+			for _, f := range g.Fields {
+				if f == fname {
+					return true
+				}
+			}
+		}
+	}
+	return false
+}
+
 // contentsGuardOf: the guard of the contents (map entries / slice elements) of a field declared "name[]".
 func (e *Engine) contentsGuardOf(structT types.Type, field int) *GuardDecl {
 	n, ok := structT.(*types.Named)
@@ -355,6 +377,9 @@ func (e *Engine) contentsGuardOf(structT types.Type, field int) *GuardDecl {
 	}
 	fname := structT.Underlying().(*types.Struct).Field(field).Name()
 	for _, g := range e.contracts.Guards {
+		if g.Private {
+			continue
+		}
 		if g.Pkg == n.Obj().Pkg().Path() && g.Struct == n.Obj().Name() {
 			for _, f := range g.Fields {
 				if f == fname+"[]" || f == fname {
@@ -426,6 +451,9 @@ func (e *Engine) lockClassOf(v ssa.Value) string {
 	}
 	fname := structT.Underlying().(*types.Struct).Field(fa.Field).Name()
 	for _, g := range e.contracts.Guards {
+		if g.Private {
+			continue
+		}
 		if g.Pkg == n.Obj().Pkg().Path() && g.Struct == n.Obj().Name() && g.LockField == fname {
 			return g.Class
 		}
@@ -437,6 +465,9 @@ func (e *Engine) lockClassOf(v ssa.Value) string {
 	}
 	// a cond field of another struct that shares a declared cond's name suffix (muxerStream.cond -> class of its guard)
 	for _, g := range e.contracts.Guards {
+		if g.Private {
+			continue
+		}
 		if g.Pkg == n.Obj().Pkg().Path() && g.Struct == n.Obj().Name() && fname == "cond" {
 			return g.Class
 		}
@@ -447,7 +478,7 @@ func (e *Engine) lockClassOf(v ssa.Value) string {
 func (e *Engine) guardedSVs(vc *VC, class string) []string {
 	set := map[string]bool{}
 	for _, g := range e.contracts.Guards {
-		if class != "" && g.Class != class {
+		if g.Private || (class != "" && g.Class != class) {
 			continue
 		}
 		t := e.structByName(g.Pkg, g.Struct)
